@@ -35,6 +35,10 @@ DISPATCH = {1: ('Origin', None), 2: ('ASPath', 'param'), 3: ('NextHop', None), 4
 
 
 def check(prog, rep, tier):
+    rep.rule('R09.g', 'the ADD-PATH switch of MP_REACH / MP_UNREACH is looked up by family name: the <AFI, SAFI> -> name table '
+                      'is the inverse of the name -> <AFI, SAFI> table (rule shared with C14 R14.e)')
+    from .c14 import family_names
+    family_names(prog, rep, 'R09.g')
     rep.rule('R09.a', 'extended length honoured generically: parse_attributes selects the 1- or 2-octet length '
                       'from the flags before and independent of the type dispatch; no per-type decoder sees the flags')
     rep.rule('R09.b', 'trailing-bit mask: the mask applied to the last prefix octet for remainder r = 1..7 is the '
@@ -252,8 +256,8 @@ def mask_rule(prog, rep, rule):
                         if getattr(st2, 'lineno', 10 ** 9) >= n.lineno:
                             continue
                         if isinstance(st2, ast.Assign) and any(src_of(t) == lst for t in st2.targets) and \
-                                isinstance(st2.value, ast.BinOp) and isinstance(st2.value.op, ast.Add) and \
-                                lst in src_of(st2.value):
+                                any(isinstance(b, ast.BinOp) and isinstance(b.op, ast.Add) and
+                                    lst in (src_of(b.left), src_of(b.right)) for b in ast.walk(st2.value)):
                             grows.append(st2)
                         if isinstance(st2, ast.AugAssign) and src_of(st2.target) == lst and isinstance(st2.op, ast.Add):
                             grows.append(st2)
